@@ -241,6 +241,8 @@ class Interp:
                                     "sub": PyFunc(lambda p, r, s, *a: re.sub(p, r, s), "re.sub")}),
             "functools.reduce": PyFunc(self._reduce, "reduce", True),
             "functools.wraps": PyFunc(lambda f, *a, **k: PyFunc(lambda g: g, "wraps(f)", True), "wraps", True),
+            "functools.lru_cache": PyFunc(self._lru_cache, "lru_cache", True),
+            "functools.cache": PyFunc(self._lru_cache, "cache", True),
             "functools.partial": PyFunc(lambda f, *a, **k: Obj("partial", {"fmt": "<partial>"}, call=lambda *a2, **k2: self.call(f, list(a) + list(a2), {**k, **k2})), "partial", True),
             **{f"itertools.{k}": v for k, v in self._itertools().items()},
             "collections.namedtuple": PyFunc(lambda name, fields, **k: PyFunc(lambda *a, **kw: tuple(a) + tuple(kw[f] for f in fields[len(a):]), name, True), "namedtuple", True),
@@ -257,6 +259,7 @@ class Interp:
             "string": Obj("module:string", {"ascii_lowercase": "abcdefghijklmnopqrstuvwxyz",
                                             "ascii_uppercase": "ABCDEFGHIJKLMNOPQRSTUVWXYZ"}),
         }
+        self.standins["functools"] = Obj("module:functools", {k.split(".", 1)[1]: v for k, v in self.standins.items() if k.startswith("functools.")})
         self.class_call_hook = None
         self.class_attr_writes: List[Any] = []
         self.module_state: Dict[Any, Any] = {}   # (module, name) -> mutable module-level object, evaluated once
@@ -368,6 +371,28 @@ class Interp:
         if isinstance(v, (Unk, Closure, PyFunc, Bound, ClassRef)):
             return Unk("type")
         return ClassRef(type(v).__name__)
+
+    def _lru_cache(self, *a, **k):
+        """functools.lru_cache / cache with Python's semantics: results are remembered per (hashable) argument tuple for
+        the life of the decorated object - so a memoised function that is not pure goes stale here as it does in Python."""
+        def decorate(f):
+            memo = {}
+
+            def call(*args, **kwargs):
+                try:
+                    key = (args, tuple(sorted(kwargs.items())))
+                    hash(key)
+                except TypeError:
+                    return self.call(f, list(args), kwargs)
+                if not (_concrete(list(args)) and _concrete(kwargs)):
+                    key = (tuple(id(x) if isinstance(x, (Obj, T, Closure)) else x for x in args), tuple(sorted((n, id(v)) for n, v in kwargs.items())))
+                if key not in memo:
+                    memo[key] = self.call(f, list(args), kwargs)
+                return memo[key]
+            return Obj("lru_cached", {"fmt": "<lru_cache>", "__wrapped__": f, "__name__": getattr(getattr(f, "node", None), "name", "f")}, call=call)
+        if len(a) == 1 and not k and isinstance(a[0], (Closure, PyFunc, Bound)):
+            return decorate(a[0])                 # @lru_cache without parentheses
+        return PyFunc(decorate, "lru_cache(...)", True)
 
     def _iter(self, v, *sentinel):
         if sentinel or isinstance(v, (Unk, T)):
